@@ -4,7 +4,7 @@ SPECIFICATION Spec
 CONSTANTS
   MaxNodes = 8
   MaxDepth = 5
-  Kinds = {"fo","fi","fp","wh","if","el","bl","st","us","br","co","sh","sh2","shs","shn","ex","exa"}
+  Kinds = {"fo","fi","fp","wh","if","el","bl","st","us","br","co","sh","sh2","shs","shn","ex","exa","toi","too","tii","tio","to","ti","tp"}
   GoodH = {"lt","ltc","le","gt","ge","post","add","sub","rev"}
   BadH = {"noinit","nodecl","float","two","noval","nocheck","ne","cmpexpr","cmpother","noupd","mul","updother"}
   RetTypes = {"void","int"}
